@@ -233,7 +233,8 @@ def _work(args) -> dict:
         cases.append((copy.deepcopy(base), []))  # the identity edit
     drawn: List[Tuple[dict, List[dict]]] = []
     # generation floor: shard i always exercises production FOCI[i] (every production in every run of 16 shards)
-    focus = evolve.Evolver.FOCI[idx % len(evolve.Evolver.FOCI)]
+    F = evolve.Evolver.FOCI
+    focus = "+".join(F[i] for i in range(idx % runner.NPROC, len(F), runner.NPROC))
     mini(evolve.evolved(base, 0, 5, focus=focus), n_models + 1, (seed, "C06", "model", idx), lambda x: drawn.append(x))
     # Hypothesis starts with the simplest example (the same in every shard): keep it in shard 0 only
     cases.extend(drawn[:n_models] if n_models == 1 else (drawn if idx == 0 else drawn[1:]))
